@@ -148,8 +148,10 @@ inductive Path
   | responseModifierError (m : Method) (st : Nat) (w : Bool)
   /-- the origin's response is written (`st ≠ 101`) -/
   | response (m : Method) (st : Nat) (w : Bool)
-  /-- 101 whose body is not an `io.ReadWriteCloser` -/
-  | upgradeNonWritable (m : Method)
+  /-- 101 whose body is not an `io.ReadWriteCloser` — a `101` reply that is no protocol switch —:
+      `handleUpgradeResponse` answers with the 502 of `errNoProtocolSwitch` through `writeErrorResponse`
+      (one report, by `writeResponse`; before the repair of F42: nothing written, `wrote m 101` reported) -/
+  | upgradeNonWritable (m : Method) (w : Bool)
   /-- 101: `handleUpgradeResponse` → `tunnel` -/
   | upgrade (m : Method) (e : TunnelEnd)
   /-- CONNECT: `modifyRequest` failed -/
@@ -180,7 +182,7 @@ def Path.events : Path → List Event
   | .transportConnectRejected m st w => .read m :: writeErrorResponse m .transportConnect st w
   | .responseModifierError m st w => .read m :: writeErrorResponse m .local st w
   | .response m st w => .read m :: writeResponse m st w
-  | .upgradeNonWritable m => [.read m, .wrote m 101]
+  | .upgradeNonWritable m w => .read m :: writeErrorResponse m .local 502 w
   | .upgrade m e => .read m :: tunnel m 101 e
   | .connectRefused st w => .read .connect :: writeErrorResponse .connect .local st w
   | .connectDialFailure st w => .read .connect :: writeErrorResponse .connect .local st w
@@ -196,7 +198,7 @@ def Path.request : Path → Option Method
   | .readError => none
   | .shutdownAfterRead m | .refused m _ _ | .roundTripError m _ _
   | .transportConnectRejected m _ _ | .responseModifierError m _ _ | .response m _ _
-  | .upgradeNonWritable m | .upgrade m _ => some m
+  | .upgradeNonWritable m _ | .upgrade m _ => some m
   | _ => some .connect
 
 /-- the status code of the response written (or attempted) to the client -/
@@ -206,7 +208,8 @@ def Path.clientStatus : Path → Nat
   | .responseModifierError _ st _ | .response _ st _
   | .connectRefused st _ | .connectDialFailure st _ | .connectResponseModifierError st _
   | .connectRejected st _ | .mitmResponseModifierError st _ => st
-  | .upgradeNonWritable _ | .upgrade _ _ => 101
+  | .upgradeNonWritable _ _ => 502
+  | .upgrade _ _ => 101
   | .connectTunnel _ | .mitmWriteError | .mitmHandoff => 200
 
 /-- the guards of the code under which a path is taken: `handle` dispatches CONNECT away, 101 goes
@@ -221,7 +224,7 @@ def Path.valid : Path → Bool
   | .transportConnectRejected m st _ => m ≠ .connect && st / 100 ≠ 2
   | .responseModifierError m st _ => m ≠ .connect && 400 ≤ st
   | .response m st _ => m ≠ .connect && st ≠ 101
-  | .upgradeNonWritable m => m ≠ .connect
+  | .upgradeNonWritable m _ => m ≠ .connect
   | .upgrade m _ => m ≠ .connect
   | .connectRefused st _ => 400 ≤ st
   | .connectDialFailure st _ => 400 ≤ st
